@@ -31,6 +31,7 @@ def as_bv64(v):
 class Contract:
     def __init__(self, overrides=None, disabled_faults=()):
         self.cache = {}
+        self.generic = {}
         self.overrides = [(re.compile(p), f) for p, f in (overrides or [])]
         self.disabled_faults = set(disabled_faults)   # fault kinds that never fire (healthy-environment assumptions)
 
@@ -39,11 +40,17 @@ class Contract:
         if f != 0:
             return f
         f = None
-        for pat, fn, *_ in self.overrides + RULES:
+        for pat, fn, *rest in self.overrides + RULES:
             if pat.search(c0):
-                f = fn; break
+                f = fn
+                self.generic[c0] = bool(rest) and rest[0] < 0
+                break
         self.cache[c0] = f
         return f
+
+    def is_generic(self, c0):
+        """was the matching rule a generic fallback (prio < 0)?  fjall's own impls take precedence over those"""
+        return self.generic.get(c0, False)
 
     # ---- helpers used by the executor
     def const_value(self, ex, st, text):
@@ -2709,3 +2716,23 @@ def s_range_inclusive(ex, st, call):
         else:
             out.append((s2, ex.mk_enum(call.dst_ty, 'None')))
     return out
+
+
+@rule(r'^<.* as TryInto<.*>>::try_into$', prio=-1)
+def s_try_into(ex, st, call):
+    """blanket impl: <A as TryInto<B>>::try_into == <B as TryFrom<A>>::try_from"""
+    q = parse_qualified(call.c0)
+    if not q or not q[1]:
+        return NotImplemented
+    selfty, trait = q[0], q[1]
+    ga = generic_args(trait)
+    if not ga:
+        return NotImplemented
+    alt = f'<{ga[0]} as TryFrom<{selfty}>>::try_from'
+    fn, sty = ex.resolve(alt, call.frame)
+    if fn is not None:
+        return list(ex.call_fn(st, fn, call.args, sty))
+    summ = ex.contract.lookup(strip_turbofish(alt), alt)
+    if summ is not None and summ is not s_try_into:
+        return list(ex.do_call(st, call.depth, alt, call.args, call.dst_ty))
+    return NotImplemented
